@@ -228,7 +228,7 @@ func c13HistCfg(tier string) []*histCfg {
 func init() {
 	mc.Register(&mc.Check{
 		Prop:        "C13",
-		Rule:        "sequential: every history over {CreateScope(provider|scope, cancellable | inherited | cancellable-derived-from-the-parent-scope's-context ctx), Get, GetKeyed, GetGroup, Close(scope|provider), cancel} up to the depth bound, each operation compared with the closed-means-closed model; overlapping: every schedule (preemption bound 2 quick / 3 thorough) of one closer || one in-flight operation, then retries on every closed object. An outcome is the canonical observation string of one execution.",
+		Rule:        "sequential: every history over {CreateScope(provider|scope, cancellable | inherited | cancellable-derived-from-the-parent-scope's-context ctx), Get, GetKeyed, GetGroup, Close(scope|provider), cancel} up to the depth bound, each operation compared with the closed-means-closed model; overlapping: every schedule (preemption bound 2 quick / 3 thorough) of one closer || one in-flight operation, then retries on every closed object. An outcome is the canonical observation string of one execution. Two providers built from one collection: every history to depth 4 (5) over {use p1, use p2, close p1, close p2}: a closed provider refuses use, the other one stays fully usable.",
 		Assume:      []string{"sequentially consistent interleavings at synchronisation granularity (justified by the race detector's silence)", "context cancellation is observed by the watcher goroutine as a scheduler-visible blocking operation"},
 		MinOutcomes: 10,
 		Jobs: func(tier string) []mc.Job {
@@ -253,6 +253,7 @@ func init() {
 			for _, c := range c13HistCfg(tier) {
 				jobs = append(jobs, c.jobs()...)
 			}
+			jobs = append(jobs, twoProvJob("C13", depth4(tier)))
 			return jobs
 		},
 	})
